@@ -846,6 +846,156 @@ theorem foldHBoth_spec (env : Env J S C) (hk : Hooks S C) (cfg : Cfg) (st : Stat
       rw [hxh, hph]
       exact ⟨rfl, rfl, rfl, rfl, Or.inl ⟨hv, rfl, rfl, by simp [Folded.echo], by simp [FoldedX.echo]⟩⟩
 
+/-! ### the verdict does not depend on the counters -/
+
+/-- the library calls the loop makes, and what it finds (hit, attempt records), do not depend on the counters it
+    starts from -/
+theorem loopG_counters_irrelevant (att : Strategy → W κ α) (valid : α → Bool) (err : α → Option ErrTag) :
+    ∀ (strs : List Strategy) (st st' : Stats) (atts : List AttRec),
+    (loopG att valid err strs st atts).trace = (loopG att valid err strs st' atts).trace ∧
+    (loopG att valid err strs st atts).res.map (fun o => (o.hit, o.attempts)) =
+      (loopG att valid err strs st' atts).res.map (fun o => (o.hit, o.attempts)) := by
+  intro strs
+  induction strs with
+  | nil => intro st st' atts; exact ⟨rfl, rfl⟩
+  | cons s rest ih =>
+    intro st st' atts
+    unfold loopG
+    cases hres : (att s).res with
+    | ok a =>
+      by_cases hv : valid a = true
+      · simp [hv]
+      · have h := ih ⟨st.total, st.successful, st.succ, bump st.att s⟩ ⟨st'.total, st'.successful, st'.succ, bump st'.att s⟩
+          (atts ++ [⟨s, false, err a⟩])
+        simp [hv, h.1, h.2]
+    | raise e =>
+      have h := ih ⟨st.total, st.successful, st.succ, bump st.att s⟩ ⟨st'.total, st'.successful, st'.succ, bump st'.att s⟩
+        (atts ++ [⟨s, false, some (.msg e)⟩])
+      simp [h.1, h.2]
+
+/-- what `fold_enhanced` returns, from what its loop found -/
+def finishX (raw : Text) (n : Nat) (hit : Option (Strategy × X S C)) (atts : List AttRec) : FoldedX S C :=
+  match hit with
+  | some (s, x) => ⟨x.valid, x.struct, raw, x.err.map .attempt, atts ++ [⟨s, true, none⟩], x.confidence, x.coercions,
+                    x.strategyUsed⟩
+  | none => ⟨false, none, raw, some (.allFailed n), atts, cFailed, [], none⟩
+
+theorem foldX_as_loop (env : Env J S C) (cfg : Cfg) (st : Stats) (raw : Text) (call : List Strategy) :
+    (foldX env cfg st raw call).trace =
+      (loopX env raw (effective cfg call) ⟨st.total + 1, st.successful, st.succ, st.att⟩ []).trace ∧
+    (foldX env cfg st raw call).res.map (·.2) =
+      (loopX env raw (effective cfg call) ⟨st.total + 1, st.successful, st.succ, st.att⟩ []).res.map
+        (fun o => finishX raw (effective cfg call).length o.hit o.attempts) := by
+  unfold foldX
+  rcases hw : loopX env raw (effective cfg call) ⟨st.total + 1, st.successful, st.succ, st.att⟩ [] with ⟨tr, o | e⟩
+  · obtain ⟨os, oh, oa⟩ := o
+    cases oh with
+    | none => simp [hw, finishX]
+    | some p => obtain ⟨s, x⟩ := p; simp [hw, finishX]
+  · simp [hw]
+
+/-- `fold_enhanced` makes the same library calls and returns the same report whatever the counters of the instance
+    are, and whichever instance it is called on, as long as the strategy list in force is the same -/
+theorem foldX_counters_irrelevant (env : Env J S C) (cfg cfg' : Cfg) (st st' : Stats) (raw : Text)
+    (call call' : List Strategy) (heff : effective cfg call = effective cfg' call') :
+    (foldX env cfg st raw call).trace = (foldX env cfg' st' raw call').trace ∧
+    (foldX env cfg st raw call).res.map (·.2) = (foldX env cfg' st' raw call').res.map (·.2) := by
+  obtain ⟨h1, h2⟩ := foldX_as_loop env cfg st raw call
+  obtain ⟨h1', h2'⟩ := foldX_as_loop env cfg' st' raw call'
+  rw [h1, h2, h1', h2', heff, loopX_eq_loopG, loopX_eq_loopG]
+  obtain ⟨k1, k2⟩ := loopG_counters_irrelevant (attemptX env raw) (·.valid) (·.err) (effective cfg' call')
+    ⟨st.total + 1, st.successful, st.succ, st.att⟩ ⟨st'.total + 1, st'.successful, st'.succ, st'.att⟩ []
+  refine ⟨k1, ?_⟩
+  cases ha : (loopG (attemptX env raw) (·.valid) (·.err) (effective cfg' call')
+      ⟨st.total + 1, st.successful, st.succ, st.att⟩ []).res <;>
+    cases hb : (loopG (attemptX env raw) (·.valid) (·.err) (effective cfg' call')
+      ⟨st'.total + 1, st'.successful, st'.succ, st'.att⟩ []).res <;>
+    rw [ha, hb] at k2 <;> simp at k2 ⊢
+  · obtain ⟨k3, k4⟩ := k2; rw [k3, k4]
+  · exact k2
+
+/-- the first element of a list that does not have `P`, after elements that all have it, is unique -/
+theorem first_success_unique {P : Strategy → Prop} : ∀ (pre pre' : List Strategy) (a a' : Strategy)
+    (post post' : List Strategy), pre ++ a :: post = pre' ++ a' :: post' → (∀ s ∈ pre, P s) → ¬ P a →
+    (∀ s ∈ pre', P s) → ¬ P a' → pre = pre' ∧ a = a' := by
+  intro pre
+  induction pre with
+  | nil =>
+    intro pre' a a' post post' h _ ha hp' _
+    cases pre' with
+    | nil => simp at h; exact ⟨rfl, h.1⟩
+    | cons b pre'' =>
+      simp at h
+      exact absurd (h.1 ▸ hp' b (by simp)) ha
+  | cons c pre ih =>
+    intro pre' a a' post post' h hp ha hp' ha'
+    cases pre' with
+    | nil =>
+      simp at h
+      exact absurd (h.1 ▸ hp c (by simp)) ha'
+    | cons b pre'' =>
+      simp at h
+      obtain ⟨hcb, htl⟩ := h
+      obtain ⟨h1, h2⟩ := ih pre'' a a' post post' htl (fun s hs => hp s (by simp [hs])) ha
+        (fun s hs => hp' s (by simp [hs])) ha'
+      exact ⟨by rw [hcb, h1], h2⟩
+
+/-- one call in a history on one Chaperone whose configuration, schema (environment) and callbacks may change between
+    calls (in-place edits of the strategy list, re-assigned tables, another schema, registered callbacks) -/
+inductive HistOp (J S C : Type) where
+  | fold (env : Env J S C) (hk : Hooks S C) (cfg : Cfg) (raw : Text) (call : List Strategy)
+  | foldX (env : Env J S C) (hk : Hooks S C) (cfg : Cfg) (raw : Text) (call : List Strategy)
+  | reset
+
+def runHistOp (st : Stats) : HistOp J S C → Stats
+  | .fold env hk cfg raw call => (foldH env hk cfg st raw call).stats
+  | .foldX env hk cfg raw call => (foldXH env hk cfg st raw call).stats
+  | .reset => Stats.zero
+
+def runHist (ops : List (HistOp J S C)) : Stats := ops.foldl runHistOp Stats.zero
+
+/-! ### list objects -/
+
+theorem Heap.construct_alias (h : Heap) (k : Nat) (l : List Strategy) (hk : h.cells[k]? = some l) (hl : l ≠ []) :
+    h.construct (some k) = ⟨h.cells, h.insts ++ [(k, Stats.zero)]⟩ := by
+  have : l.isEmpty = false := by cases l <;> simp_all
+  simp [Heap.construct, hk, this]
+
+theorem Heap.construct_fresh (h : Heap) (arg : Option Nat)
+    (ha : arg = none ∨ ∃ k, arg = some k ∧ (h.cells[k]? = none ∨ h.cells[k]? = some [])) :
+    h.construct arg = ⟨h.cells ++ [defaultStrategies], h.insts ++ [(h.cells.length, Stats.zero)]⟩ := by
+  rcases ha with rfl | ⟨k, rfl, hk | hk⟩
+  · simp [Heap.construct]
+  · simp [Heap.construct, hk]
+  · simp [Heap.construct, hk]
+
+theorem Heap.construct_cases (h : Heap) (arg : Option Nat) :
+    (∃ k l, arg = some k ∧ h.cells[k]? = some l ∧ l ≠ []) ∨
+    (arg = none ∨ ∃ k, arg = some k ∧ (h.cells[k]? = none ∨ h.cells[k]? = some [])) := by
+  cases arg with
+  | none => exact Or.inr (Or.inl rfl)
+  | some k =>
+    cases hk : h.cells[k]? with
+    | none => exact Or.inr (Or.inr ⟨k, rfl, Or.inl hk⟩)
+    | some l =>
+      by_cases hl : l = []
+      · subst hl; exact Or.inr (Or.inr ⟨k, rfl, Or.inr hk⟩)
+      · exact Or.inl ⟨k, l, rfl, hk, hl⟩
+
+/-- adding an instance at the end, and list objects at the end, leaves what the earlier instances see -/
+theorem Heap.extend_old (h : Heap) (hwf : h.WF) (extra : List (List Strategy)) (e : Nat × Stats) (i : Nat)
+    (hi : i < h.insts.length) :
+    Heap.cellOf ⟨h.cells ++ extra, h.insts ++ [e]⟩ i = h.cellOf i ∧
+    Heap.cfgOf ⟨h.cells ++ extra, h.insts ++ [e]⟩ i = h.cfgOf i ∧
+    ∃ k, h.cellOf i = some k ∧ k < h.cells.length := by
+  have hc : Heap.cellOf ⟨h.cells ++ extra, h.insts ++ [e]⟩ i = h.cellOf i := by
+    simp [Heap.cellOf, List.getElem?_append_left hi]
+  have hk : h.cellOf i = some (h.insts[i]).1 := by simp [Heap.cellOf, List.getElem?_eq_getElem hi]
+  have hlt : (h.insts[i]).1 < h.cells.length := hwf _ (List.getElem_mem hi)
+  refine ⟨hc, ?_, _, hk, hlt⟩
+  simp only [Heap.cfgOf, hc, hk, Option.bind_some]
+  rw [List.getElem?_append_left hlt]
+
 /-! ### clean input through STRICT -/
 
 theorem foldStrictX_clean (env : Env J S C) (raw : Text) (d : J) (v : S)
